@@ -366,6 +366,75 @@ def alphabet_restricted(hist):
     return A
 
 
+class HoldInPass:
+    """trace factory: numbers the line events the job thread executes in electronic_control_unit.py once armed; at the chosen
+    one the thread is held for 1 ms and, 0.3 ms into the hold, another thread performs one timer operation"""
+
+    def __init__(self, point, op):
+        self.point, self.op = point, op
+        self.count = 0
+        self.where = None
+        self.h = None
+        self.armed = False
+        self.hold_iv = None
+
+    def __call__(self, lt, idx):
+        if lt.kind != 'J':
+            return None
+        me = self
+
+        def tracer(frame, event, arg):
+            if not frame.f_code.co_filename.endswith('electronic_control_unit.py'):
+                return tracer if event == 'call' else None
+            if event == 'line' and me.armed:
+                me.count += 1
+                if me.count == me.point:
+                    me.where = "%s:%d" % (frame.f_code.co_name, frame.f_lineno)
+                    w = rt.CUR
+                    w.at(w.now + 0.0003, lambda: me.h.do(me.op, inside=True))
+                    t0 = w.now
+                    w.hold(0.001)
+                    me.hold_iv = (t0, w.now)
+            return tracer
+        return tracer
+
+
+PREEMPT_SETUP = [('add', 0, 0.01, True), ('add', 1, 0.02, False), ('add', 2, 0.02, True)]
+PREEMPT_OPS = [('rm', 0), ('rm', 1), ('rm', 2), ('add', 1, 0.005, False), ('add', 0, 0.01, True)]
+
+
+def preempt_run(op, point):
+    hd = HoldInPass(point, op)
+    h = H(('cfg', 50e-6), trace_factory=hd)
+    hd.h = h
+    try:
+        for o in PREEMPT_SETUP:
+            h.do(o)
+        hd.armed = True
+        h.w.run_for(0.05)
+        hd.armed = False
+        if hd.hold_iv is not None:
+            h.busy.append(hd.hold_iv)      # the suspension itself delays whatever was due meanwhile, like a slow callback
+        h.w.run_for(0.7)
+        return hd.count, h.judge(), hd.where
+    finally:
+        h.close()
+
+
+def preempt_chunk(item):
+    """C12 under pre-emption: the job thread is suspended at every source line of its pass while another thread removes
+    or adds a timer; after remove_timer has returned the callback is not called any more"""
+    op, lo, hi = item
+    acc = Acc()
+    for pt in range(lo, hi):
+        _n, probs, where = preempt_run(op, pt)
+        acc.transitions += 1
+        if probs:
+            acc.violation(csig(probs), {'preempt': {'op': list(op), 'point': pt}, 'history': [], 'cfg': ['cfg', 50e-6]}, None,
+                          probs[:3] + ["job thread held at %s" % where])
+    return acc
+
+
 def cfg_of(hist):
     return list(hist[0])
 
@@ -385,7 +454,8 @@ RULE = ("state = canonical form of the real ECU (timer list with deadlines relat
         "pending in-callback operations) + job thread's blocked-until; transition = one operation (add_timer one-shot/periodic "
         "with a period from the grid, remove_timer, subscribe, unsubscribe, the same issued from inside a timer callback, a message callback "
         "that unsubscribes itself / its neighbour when next called, idle gap); "
-        "every distinct state is judged against the reference timer list now, 0.7 s and 5.2 s later")
+        "every distinct state is judged against the reference timer list now, 0.7 s and 5.2 s later; additionally the job thread is "
+        "suspended for 1 ms at every source line of its pass over three timers while another thread removes / adds a timer")
 ASSUME = ["scheduling latency = the configured job-thread wake latency (0.05 ms or 2 ms) + 0.6 ms",
           "the k-th point of a period grid is judged with k * 0.12 us slack (double-precision rounding of deadline += delta at clock values ~1.7e9)",
           "a call that was not yet overdue (due + scheduling latency) when remove_timer was entered is optional; calls 0.1 ms early are tolerated (clock tick noise)",
@@ -423,6 +493,25 @@ def run(tier, seed):
                                        'frontier_emptied': r['frontier_emptied'], 'alphabet': len(alphabet_restricted([cfg]))}
         for dig in r['seen']:
             nontrivial.add(hash(dig))
+        # pre-emption part
+        from ..runner import make_pool, pmap
+        items = []
+        for op in PREEMPT_OPS:
+            n1 = preempt_run(op, 0)[0]
+            n2 = preempt_run(op, 0)[0]
+            if n1 != n2:
+                raise RuntimeError("line-event numbering of the job thread's pass not reproducible (%d vs %d)" % (n1, n2))
+            items += [(op, lo, min(lo + 20, n1 + 1)) for lo in range(1, n1 + 1, 20)]
+            info.setdefault('pre-emption', {})[repr(op)] = {'line_events': n1}
+        pool = make_pool(16)
+        try:
+            for a in pmap(pool, preempt_chunk, items):
+                acc.transitions += a.transitions
+                acc.violations.extend(a.violations)
+        finally:
+            pool.close()
+            pool.join()
+        acc.evals = acc.transitions
     except RuntimeError as e:
         print("HARNESS-ERROR property=%s\n%s" % (PROP, e))
         return 2
@@ -433,6 +522,16 @@ def run(tier, seed):
 
 
 def replay(rec):
+    if rec['scenario'].get('preempt'):
+        pr = rec['scenario']['preempt']
+        n, probs, where = preempt_run(_tup(pr['op']), pr['point'])
+        print("job thread held at %s while another thread performs %r" % (where, pr['op']))
+        if probs:
+            print("REPRODUCED: " + "; ".join(probs[:4]))
+            print("VIOLATION property=%s replay=(this file)" % PROP)
+            return 1
+        print("no violation on this tree")
+        return 0
     hist = [_tup(x) for x in rec['scenario']['history']]
     h = build(hist)
     try:
